@@ -618,6 +618,12 @@ def run_text_misc(case):
     import dns.ipv4
     import dns.ipv6
     import dns.edns
+    import dns.e164
+    import dns.name
+    import dns.rdata
+    import dns.rdataset
+    import dns.reversename
+    import dns.rrset
 
     t = case["text"]
     out = []
@@ -628,6 +634,19 @@ def run_text_misc(case):
         # rcode/opcode/flags/grange/address helpers are not entry points of the property; they
         # are reached through message.from_text, zone files and rdata text
         ("tokenizer", lambda: [tok for tok in _tokens(t)]),
+        # helper constructors that parse text
+        ("rrset.from_text(name)", lambda: dns.rrset.from_text(t, 300, "IN", "A", "10.0.0.1")),
+        ("rrset.from_text(rdata)", lambda: dns.rrset.from_text("a.", 300, "IN", "TXT", t)),
+        ("rrset.from_text(ttl)", lambda: dns.rrset.from_text("a.", t, "IN", "A", "10.0.0.1")),
+        ("rrset.from_text(class)", lambda: dns.rrset.from_text("a.", 300, t, "A", "10.0.0.1")),
+        ("rrset.from_text(type)", lambda: dns.rrset.from_text("a.", 300, "IN", t, "10.0.0.1")),
+        ("rdataset.from_text", lambda: dns.rdataset.from_text("IN", "MX", 300, t)),
+        ("name.from_unicode", lambda: dns.name.from_unicode(t)),
+        ("name.from_text(IDNA2008)", lambda: dns.name.from_text(t, idna_codec=dns.name.IDNA_2008)),
+        ("name.to_unicode", lambda: dns.name.from_text(t).to_unicode()),
+        ("reversename.from_address", lambda: dns.reversename.from_address(t)),
+        ("e164.from_e164", lambda: dns.e164.from_e164(t)),
+        ("rdata.from_text(IDNA2003)", lambda: dns.rdata.from_text("IN", "NS", t, idna_codec=dns.name.IDNA_2003)),
     ]
     for label, fn in fns:
         try:
@@ -635,7 +654,7 @@ def run_text_misc(case):
             out.append("ok:" + label)
         except Exception as e:
             # rdatatype/rdataclass.from_text document ValueError for out-of-range TYPEnnn/CLASSnnn
-            documented = label in ("rdatatype.from_text", "rdataclass.from_text") and type(e) is ValueError
+            documented = label in ("rdatatype.from_text", "rdataclass.from_text", "rrset.from_text(class)", "rrset.from_text(type)") and type(e) is ValueError
             if not _family(e) and not documented:
                 raise _foreign("text_misc", e, f"dns.{label}({t!r})")
             out.append("exc:" + type(e).__name__)
